@@ -246,7 +246,9 @@ impl<VM: VMBinding> crate::policy::gc_work::PolicyTraceObject<VM> for ImmixSpace
             } else {
                 self.trace_object_without_moving(queue, object)
             }
-        } else if KIND == TRACE_KIND_FAST {
+        } else if KIND == TRACE_KIND_FAST || KIND == DEFAULT_TRACE {
+            // A default trace never moves objects of this space (see `may_move_objects`).  It is
+            // what plans without an Immix-specific trace use for the Immix-based non-moving space.
             self.trace_object_without_moving(queue, object)
         } else {
             unreachable!()
